@@ -9,7 +9,7 @@ S == Scan("S")
 AggI(src) ==   \* aggregates over integer column i of src (A: columns 1,2; S: column 1)
   LET cols == IF src = "A" THEN {1, 2} ELSE {1} IN
      { [n |-> "count_star", a |-> CountStar] }
-\cup { [n |-> f, a |-> AggF(f, Col(i))] : f \in {"count", "sum", "min", "max", "avg"}, i \in cols }
+\cup { [n |-> f, a |-> AggF(f, Col(i))] : f \in {"count", "sum", "min", "max", "avg", "var_pop", "var_samp"}, i \in cols }
 \cup { [n |-> f \o "_distinct", a |-> AggD(f, Col(i))] : f \in {"count", "sum", "avg", "min"}, i \in cols }
 \cup { [n |-> f \o "_filter", a |-> [f |-> f, x |-> Col(i), star |-> FALSE, dist |-> FALSE,
                                      filt |-> CmpE("ge", Col(i), LitI(1))]] : f \in {"sum", "count", "max"}, i \in cols }
